@@ -951,9 +951,23 @@ impl Value {
                     return Ok(false);
                 }
 
-                // Note: We don't compare scopes because two functions with the same
-                // definition but different closures would have different behavior
-                // For now, we only compare structure, not captured variables
+                // Two functions with the same definition but different captured values behave
+                // differently, so the captured values are compared too - by value, like any
+                // other values (where they live on the heap does not matter)
+                if a_lambda.scope.len() != b_lambda.scope.len() {
+                    return Ok(false);
+                }
+                for (name, a_value) in a_lambda.scope.iter() {
+                    match b_lambda.scope.get(name) {
+                        Some(b_value) => {
+                            if !a_value.equals(&b_value, heap)? {
+                                return Ok(false);
+                            }
+                        }
+                        None => return Ok(false),
+                    }
+                }
+
                 Ok(true)
             }
 
